@@ -1,4 +1,5 @@
 import OrbitModel.Proofs.WritersInv
+import OrbitModel.Proofs.GenEqWrite
 import OrbitModel.Proofs.ViewRace
 /-!
 # C17 — concurrent writes on one store are each recorded exactly once and recoverable
@@ -44,5 +45,11 @@ with a view that lacks the newer entry. Replayed on the real store with the hook
 theorem unlocked_copy_left_a_stale_view :
     let s := View.run false (View.init 2) [0, 0, 1, 1, 1, 0]
     View.allDone s = true ∧ s.logLen = 2 ∧ s.view = 1 := View.unlocked_copy_leaves_a_stale_view
+
+/-- the write path and the view update in the Go text of this run follow the order of the two models
+(`Model/Writers.lean` with the mutex, `Model/ViewRace.lean` with the copy under the lock) -/
+theorem write_path_order_tied_to_go_text : Gen.addOperationOrder = Order.addOperation ∧
+    Gen.kvIndexOrder = Order.updateIndex ∧ Gen.docIndexOrder = Order.updateIndex :=
+  ⟨gen_addOperation_order, gen_updateIndex_order.1, gen_updateIndex_order.2⟩
 
 end Orbit.C17
